@@ -69,6 +69,8 @@ type parserState struct {
 	// querySatisfied is true if both path and value of any queries passed to
 	// consumeAny are satisfied.
 	querySatisfied bool
+	// incomplete is true when the top level value could not be parsed to its end.
+	incomplete bool
 }
 
 // query holds information about a combination of {"key": "val"} that we're trying
@@ -123,6 +125,10 @@ func Parse(queryType string, raw []byte) (parsed, inspected, firstToken int, que
 
 	qs := queries[queryType]
 	got := p.consumeAny(raw, qs, 0)
+	if p.incomplete {
+		// No complete JSON value was found in raw.
+		got = 0
+	}
 	return got, p.ib, p.firstToken, p.querySatisfied
 }
 
@@ -131,6 +137,7 @@ func (p *parserState) reset() {
 	p.currPath = p.currPath[0:0]
 	p.firstToken = TokInvalid
 	p.querySatisfied = false
+	p.incomplete = false
 }
 
 func (p *parserState) consumeSpace(b []byte) (n int) {
@@ -430,6 +437,11 @@ func (p *parserState) consumeAny(b []byte, qs []query, lvl int) (n int) {
 		p.querySatisfied = true
 	}
 	if rv <= 0 {
+		if lvl > 0 {
+			// A value that fails makes the enclosing array or object fail too.
+			return 0
+		}
+		p.incomplete = true
 		return n
 	}
 	n += rv
